@@ -113,7 +113,7 @@ def run(tier, seed, replay=None):
     for l, o in zip(mlines, mout):
         res.case(l.replace(base, ""))
         if o.startswith("DIFF") or o in ("PANIC", "ABORT"):
-            res.failing.append(("multi-archive-differs", "extract_from_multiple_archives differs from sequential reads: " + o, {"case": l.replace(base, "<dir>")}))
+            res.failing.append(("multi-archive-differs", "a multi-archive or matching helper differs from its sequential meaning: " + o, {"case": l.replace(base, "<dir>")}))
     res.sample({"case": lines[5].replace(base, "<dir>")[:200], "result": allout[0][5][:200]})
     res.sample({"model_case": ml[70][:120], "model": mo[70][:120]})
     res.extra["configurations"] = len(cases)
